@@ -12,10 +12,13 @@ sub mode=stream|cache rec=0|1 auto=0|1 off=<o> ep=<epoch index, 0 = empty> rej=0
     cf=<filter> sf=<filter> h=<handler>
       filter  = -  | e<v> (tag == v) | n<v> (tag != v)
       handler = -  | err:<pubs> | 0:<pubs> | 1:<pubs>    pubs = tag.size.ttl joined by + (or empty)
-  -> rec=<0|1> pubs=<offset:id,…> off=<o> ep=<e> pos=<o> was=<0|1>  |  err=112  |  disc=3010  |  disc=3004
+  -> <outcome> pre=<state> post=<state> hi=<handler invoked 0|1> hp=<offsets the handler published>
+     outcome = rec=<0|1> pubs=<offset:id,…> off=<o> ep=<e> pos=<o> was=<0|1> | err=112 | disc=3010 | disc=3004
+     state   = -  (no stream) | top/epoch/len/first/last     (retained list before / after the subscribe)
 ```
 Epoch indices number the epochs in order of creation (the harness numbers epoch strings in order
 of first appearance, which is the same order because every creation is reported by its operation).
+A request epoch index that has not been created yet denotes a foreign epoch string.
 -/
 namespace CentrifugeVerif.Recovery
 open CentrifugeVerif.DriverLib CentrifugeVerif.Merge
@@ -66,6 +69,14 @@ def showOutcome : Outcome → String
     let ps := joinWith "," (pubs.map (fun p => s!"{p.offset}:{p.id}"))
     s!"rec={if r then 1 else 0} pubs={ps} off={off} ep={ep} pos={pos} was={if was then 1 else 0}"
 
+/-- retained state as the harness peeks it: `-` (no stream) or `top/epoch/len/first/last` -/
+def showState : Option RStream → String
+  | none => "-"
+  | some s =>
+    let lo := match s.items.head? with | some p => p.offset | none => 0
+    let hi := match s.items.getLast? with | some p => p.offset | none => 0
+    s!"{s.top}/{s.epoch}/{s.items.length}/{lo}/{hi}"
+
 def bit (ws : List String) (k : String) : Option Bool :=
   match kv ws k with
   | some "0" => some false
@@ -97,9 +108,12 @@ def step (h : Hub) (line : String) : Hub × String :=
       (kv rest "h").bind parseHandler with
     | some r, some a, some off, some ep, some rej, some d, some cf, some sf, some hd =>
       if mode != some "stream" && mode != some "cache" then (h, "bad-op") else
+      -- an epoch index that does not exist yet stands for a foreign epoch string
+      let ep := if ep ≥ h.nextEpoch then ep + 1000000000 else ep
       let sp : SubParams := ⟨mode == some "cache", r, a, ⟨off, ep, rej⟩, d, mkFilt cf sf, hd⟩
-      let (h', o) := h.subscribe sp
-      (h', showOutcome o)
+      let r := h.subscribe sp
+      let hp := joinWith "," (r.hpubs.map (fun p => toString p.offset))
+      (r.hub, s!"{showOutcome r.out} pre={showState h.stream} post={showState r.hub.stream} hi={if r.invoked then 1 else 0} hp={hp}")
     | _, _, _, _, _, _, _, _, _ => (h, "bad-op")
   | _ => (h, "bad-op")
 
